@@ -18,6 +18,7 @@ Structural clauses decided:
  R10 every narrowing integer conversion in the TCP crate is proven (difference constraints) or reviewed to fit
  TW  the IPv4 and IPv6 copies of the per-packet functions route sides / roles / lookups identically
 """
+import re
 from ..engine import cfg as C
 from ..engine import decision as D
 from ..engine import guards as GV
@@ -168,6 +169,37 @@ SPEC = {
 TOLERATED = {"optlen>=1", "optlen>0", "optlen!=0"}
 
 
+def _complement(atom):
+    m = re.match(r"^(.*?)(==|!=|<=|>=|<|>)(-?\d+)$", atom)
+    if not m:
+        return None
+    return m.group(1) + {"==": "!=", "!=": "==", "<": ">=", ">=": "<", ">": "<=", "<=": ">"}[m.group(2)] + m.group(3)
+
+
+def _merge_complementary(sites):
+    """a quirk pushed in two arms whose conditions differ only in one test and its negation (`match (df, zero_id) { (true, true) => ..df..,
+    (true, false) => ..df.. }`) is pushed under what the arms have in common"""
+    sites = list(sites)
+    changed = True
+    while changed:
+        changed = False
+        for i in range(len(sites)):
+            for j in range(i + 1, len(sites)):
+                (q1, b1, a1, c1), (q2, b2, a2, c2) = sites[i], sites[j]
+                if q1 != q2:
+                    continue
+                s1, s2 = set(a1), set(a2)
+                d1, d2 = s1 - s2, s2 - s1
+                if len(d1) == 1 and len(d2) == 1 and _complement(next(iter(d1))) == next(iter(d2)):
+                    sites[i] = (q1, b1, [x for x in a1 if x in s2], c1)
+                    del sites[j]
+                    changed = True
+                    break
+            if changed:
+                break
+    return sites
+
+
 def quirk_sites(P, b):
     S = T.Slicer(b, P)
     out = []
@@ -196,8 +228,9 @@ def rule_R2(ctx):
         common = set(sites[0][2])
         for (_, _, atoms, _) in sites:
             common &= set(atoms)
+        nsites += len(sites)
+        sites = _merge_complementary(sites)
         for (q, blk, atoms, conds) in sites:
-            nsites += 1
             produced.setdefault(q, []).append(fn)
             got = set(atoms) - common
             want = spec.get(q)
@@ -800,7 +833,9 @@ def rule_R8(ctx):
                 if getters:
                     which = getters[0][1].rsplit("::", 1)[-1]
                     extra = sorted({T.short(x[1]) for x in calls if x not in getters and not T.is_identity_call(x[1])})
-                    okc = not extra
+                    # the tested value is the getter's result itself, not a value merged from it and something else (`.filter(..)`,
+                    # `if cond { get() } else { None }`)
+                    okc = not extra and not any(x[0] == "phi" for x in T.walk(c[1]))
         ctx.check(okc, "R8", "observable:star:%s" % which, "`*` written exactly when %s() is None" % which,
                   "`*` is written for %s under more than `the option is absent` (%s): an option that is present with a particular value (e.g. ws 0) is "
                   "rendered as missing" % (which, ",".join(extra) or "condition not recognised"), ctx.loc(b, blk))
